@@ -259,6 +259,7 @@ def cconc_items(props, tier):
                 for nm, pg, kw in P_:
                     if pol in ('LFU', 'Random') and nm in ('get|get',) and tier == 'quick': continue
                     if pol == 'TLRU' and n == 3 and kw.get('ttl'): continue        # score with an age fraction over 3 residents and 3 preemptions: z3 does not finish within the cap
+                    if pol == 'TLRU' and nm == 'reinsmem|get;insmem': continue         # same cap (non-linear age fraction x three memory-loop stores x 3 preemptions); ARC keeps this program
                     out.append(dict(kind='cconc', flavour=fl, policy=pol, n=n, progs=pg, preempt=2 if tier == 'quick' else 3, props=list(props), **kw))
     return out
 
